@@ -124,6 +124,12 @@ func cmdVC(args []string) {
 		res := SolveAll(obls, SolveOpts{Solvers: strings.Split(*sv, ","), TimeoutS: *timeout, Workdir: work, Parallel: 8, DumpDir: *dump})
 		for _, r := range res {
 			mark := "ok  "
+			if r.Kind == "path" {
+				if r.Status == "unsat" {
+					fmt.Printf("   DEAD-PATH                                %s\n", r.Name)
+				}
+				continue
+			}
 			if r.Canary {
 				if r.Status == "unsat" {
 					mark = "CANARY-PASSED(BAD)"
